@@ -221,3 +221,21 @@ REG.contract(T + "Model.__init__", params={"terms": "list[any]", "response": "an
                       "forall_obj(lambda x: (x in self.common_terms) == (x in terms and not is_a(x, 'GroupSpecificTerm')))",
                       "forall_obj(lambda x: (x in self.group_terms) == (x in terms and is_a(x, 'GroupSpecificTerm')))"])
 FUNCTIONS += [T + "Model.__init__"]
+
+
+# ---- identity of the remaining term classes (C02): what makes two items of a model "the same term" ------------------------------
+REG.declare_class(T + "Intercept", {"name": "str", "kind": "str", "data": "any", "len": "any"})
+REG.declare_class(T + "NegatedIntercept", {"name": "str", "kind": "str"})
+REG.contract(T + "Intercept.__eq__", params={"other": "any"}, returns="bool", tags=["C02"], ensures=["result == is_a(other, 'Intercept')"])
+REG.contract(T + "NegatedIntercept.__eq__", params={"other": "any"}, returns="bool", tags=["C02"],
+             ensures=["result == is_a(other, 'NegatedIntercept')"])
+REG.contract(T + "Intercept.__hash__", returns="int", tags=["C02"], ensures=["result == hash(self.kind)"])
+REG.contract(T + "Term.__hash__", returns="int", tags=["C02"], ensures=["result == hash(tuple(self.components))"])
+REG.contract(T + "GroupSpecificTerm.__eq__", params={"other": T + "GroupSpecificTerm"}, returns="bool", tags=["C02"],
+             ensures=["result == (self.expr == other.expr and self.factor == other.factor)"])
+REG.contract(T + "Response.__eq__", params={"other": T + "Response"}, returns="bool", tags=["C02", "C15"],
+             ensures=["result == (self.term.components == other.term.components)"])       # through Term.__eq__
+IDENTITY = [T + "Intercept.__eq__", T + "NegatedIntercept.__eq__", T + "Intercept.__hash__", T + "Term.__hash__",
+            T + "GroupSpecificTerm.__eq__", T + "Response.__eq__"]
+FUNCTIONS += IDENTITY
+
